@@ -10,5 +10,5 @@ for d in $STAGE/C*/[AB]; do
     C01) extra="C02 C15";; C02) extra="C08 C03";; C04) extra="C01";; C05) extra="C02 C08";; C06) extra="C01";; C08) extra="C02 C15";;
     C11) extra="C15";; C15) extra="C08";; C03) extra="C02 C08";; C20) extra="C15 C08";;
   esac
-  echo "$d/patch.diff $id $extra"
+  echo "$d/patch.diff $id $extra" | sed "s/ *$//"
 done | VERIF_JOBS=4 xargs -P 4 -L 1 ./selftest/try_mutant.sh 2>&1 | grep "^MUTANT\|PATCH-DOES"
